@@ -134,10 +134,14 @@ def _judge(mode, cfg, files, v, lookup, cov):
     return res
 
 
+_HUNG = []
+
+
 def _side_checks(mode, infos, v, cov):
-    hung = [i for i in infos if i.get("hung")]
-    if hung:
-        raise vlib.Infra("%s: %d run(s) did not finish within the watchdog (no observation): %s" % (mode, len(hung), json.dumps(hung[0])[:1500]))
+    # a run that did not finish within the watchdog: its recorded events are still judged; if
+    # nothing in the whole check is a violation, a hang is an infrastructure problem, not a verdict
+    _HUNG.extend((mode, i) for i in infos if i.get("hung"))
+    cov["runs_hung_" + mode] = sum(1 for i in infos if i.get("hung"))
     for i in infos:
         if i.get("aux", {}).get("greeting_derived") is False:
             v.violation("greeting-not-derived", "the greeting does not depend on the transfer's id and port", {"mode": mode, "info": i})
@@ -154,6 +158,7 @@ def _write_ndjson(path, items):
 
 
 def run(tier, v):
+    del _HUNG[:]
     quick = tier == "quick"
     cov = {"samples": [], "exhaustive": True}
     rnd = random.Random(vlib.seed() * 7919 + 17)
@@ -332,6 +337,9 @@ def run(tier, v):
         nrel += rs["runs"]
     _side_checks("relay", rinfos, v, cov)
     cov["traces_validated_against_impl"] = len(cases) + len(tinfos) + nrel
+    if _HUNG and not v.violations and not v.known_hit:
+        raise vlib.Infra("%d run(s) did not finish within the watchdog and nothing else was observed: %s"
+                         % (len(_HUNG), json.dumps(_HUNG[0])[:1500]))
     return cov
 
 
